@@ -39,7 +39,8 @@ def shapes():
             out.append(s)
     return out
 
-SOURCES = ['V', 'S', 'R', 'E', 'U', 'D']
+SOURCES = ['V', 'S', 'R', 'E', 'U', 'D', 'C', 'L', 'B', 'd', 'A', 'I', 'W']
+REDUCED = 'DCLBdAIW'
 DEQUE_SHAPES = ['', 'M', 'F', 'X', 'O', 'MF', 'XF', 'OF', 'FX']
 
 def gen_fn(src, shape):
@@ -60,12 +61,39 @@ def gen_fn(src, shape):
     elif src == 'D':
         L.append("    let src: std::collections::VecDeque<Item> = make_owned(ctx).into();")
         L.append("    let p = src.into_par();")
+    elif src == 'C':
+        L.append("    let p = AsPar::par(&ctx.src_items);")
+    elif src == 'L':
+        L.append("    let src: std::collections::LinkedList<Item> = make_owned(ctx).into_iter().collect();")
+        L.append("    let p = src.into_par();")
+    elif src == 'B':
+        L.append("    let src: std::collections::BTreeSet<Item> = make_owned(ctx).into_iter().collect();")
+        L.append("    let p = src.into_par();")
+    elif src == 'd':
+        elem = "&'a Item"
+        L.append("    let p = AsPar::par(&ctx.src_deque);")
+    elif src == 'A':
+        elem = "&'a Item"
+        L.append("    let arr: &'a [Item; 8] = ctx.src_items[..].try_into().expect(\"array source needs 8 items\");")
+        L.append("    let p = AsPar::par(arr);")
+    elif src == 'I':
+        L.append("    let src: Vec<Item> = make_owned(ctx);")
+        L.append("    let p = src.into_con_iter().into_par();")
+    elif src == 'W':
+        elem = "&'a Item"
+        L.append("    let sl: &'a [Item] = &ctx.src_items[..];")
+        L.append("    let p = IntoPar::into_par(sl);")
     L.append("    ctx.record_step(0, \"source\", p.params());")
     L.append("    let p = apply_source_params(p, ctx);")
     state, opaque = 'E', False
     if src == 'R':
         L.append("    let p = p.map(mk_lift(ctx));")
         state = 'M'
+    if src == 'C':
+        # cloned() is a trait-provided map returning `impl Par`
+        L.append("    let p = p.cloned();")
+        state = 'M'
+        opaque = True
     L.append("    let p = apply_setters(p, ctx, 0);")
     L.append("    ctx.record_step(1, \"source-params\", p.params());")
     cuts, labels = [], []
@@ -117,7 +145,7 @@ def main(root):
     items = []
     for src in SOURCES:
         for sh in shapes():
-            if src == 'D' and sh not in DEQUE_SHAPES:
+            if src in REDUCED and sh not in DEQUE_SHAPES:
                 continue
             code, info = gen_fn(src, sh)
             # rough cost: deeper chains instantiate more
@@ -148,10 +176,12 @@ publish = false
 [dependencies]
 vhc = {{ path = "../../core" }}
 orx-parallel = {{ path = "/repo", features = ["verif-hooks"] }}
+orx-concurrent-iter = "1.30"
 """)
         o = []
         o.append("// @generated by tools/gen_table.py -- do not edit")
         o.append("#![allow(non_snake_case, unused_imports, clippy::all)]")
+        o.append("use orx_concurrent_iter::IntoConcurrentIter;")
         o.append("use orx_parallel::prelude::*;")
         o.append("use vhc::case::*;")
         o.append("use vhc::ctx::Ctx;")
